@@ -73,7 +73,7 @@ type c21Model struct {
 }
 
 func runC21(c c21Case, st *vstat.Stats) *vstat.Failure {
-	return vstat.Catch(func() *vstat.Failure { return runC21x(c, st) })
+	return vstat.CatchBounded(60*time.Second, func() *vstat.Failure { return runC21x(c, st) })
 }
 
 func runC21x(c c21Case, st *vstat.Stats) *vstat.Failure {
